@@ -121,6 +121,18 @@ func (V *Verifier) runProperty(spec *propSpec) *checkResult {
 			fmt.Fprintf(os.Stderr, "  %.2fs (gen %.2fs) %s %s\n", obls[i].Res.Secs, obls[i].GenSecs, obls[i].Res.Verdict, obls[i].Name)
 		}
 	}
+	// thorough tier: the replay battery is also run as a bounded cross-check
+	// (reported under coverage.bounded, never counted as proved)
+	if V.Tier == "thorough" && !spec.NoBattery {
+		br := V.runBattery(spec.ID)
+		res.bounded["bounded_battery"] = map[string]any{"cases": br.Cases, "failing": len(br.Failures), "cmd": br.Cmd, "secs": round2(br.Secs),
+			"label": "bounded: real code vs executable transcription of the spec on an enumerated battery; not counted in obligations/discharged"}
+		if len(br.Failures) > 0 {
+			o := &Oblig{Name: "battery:" + spec.ID, Fn: "battery", Kind: "bounded", Decided: true, Note: fmt.Sprintf("%d failing inputs", len(br.Failures))}
+			o.Res = SolveResult{Verdict: Sat, Solver: "go test (battery)", Output: fmt.Sprintf("%+v", br.Failures[0])}
+			res.extraObls = append(res.extraObls, o)
+		}
+	}
 	// extra engines
 	for _, x := range spec.Extras {
 		V.runExtra(spec, x, res)
